@@ -37,7 +37,13 @@ def shape(j):
 
 
 def features(j):
-    return {"kind": j.get("kind", "").split("/")[0], "shape": shape(j)}
+    f = {"kind": j.get("kind", "").split("/")[0], "shape": shape(j)}
+    # a resolved value that starts with a line feed is not handed back intact by Get: gconfig converts
+    # through yaml.Marshal/Unmarshal and yaml.v3 drops the first line break of such a block scalar
+    # (known finding C16-yaml-roundtrip-leading-line-break)
+    if any(v.startswith("\n") and k in j.get("yaml", "") for k, v in (j.get("env") or {}).items()):
+        f["env_value_starts_with_line_feed"] = True
+    return f
 
 
 def view(j):
